@@ -11,6 +11,8 @@ import PygProofs.Lemmas.GroupLemmas
 import PygProofs.Lemmas.UnlistLemmas
 import PygProofs.Lemmas.PivotLemmas
 import PygProofs.Lemmas.UnpivotLemmas
+import PygProofs.Lemmas.JoinCols
+import Std.Data.String.ToInt
 
 namespace Pyg.Props.C11
 open Pyg
@@ -200,13 +202,13 @@ theorem unlist_listby_keys (keys : List Val) :
 
 /-- `groupby` likewise: one sub-table per group holding that group's rows of the other columns -/
 theorem groupby_table (t : Table) (by_ : List String) (grp : String) (keys : List Val)
-    (hn : t.nrows ≠ 0) (hb : by_ ≠ []) (hlt : by_.length ≠ t.cols.length)
+    (hn : t.nrows ≠ 0) (hb : by_ ≠ []) (hlt : by_.length ≠ t.cols.length) (hgb : grp ∉ by_)
     (hk : t.keysOf (by_.map .col) = .ok keys) :
     t.groupby by_ grp = .ok (keyColsOf by_ (listbyG keys) ++
       [(grp, (listbyG keys).map fun g => subTable (t.others by_) g.2)]) := by
   have hb' : by_.isEmpty = false := by cases by_ <;> simp_all
   have hl : by_.length ≠ 0 := by cases by_ <;> simp_all
-  simp [Table.groupby, hn, hb', hl, hlt, hk, bind, Except.bind, pure, Except.pure]
+  simp [Table.groupby, hn, hb', hl, hlt, hgb, hk, bind, Except.bind, pure, Except.pure]
 
 /-- **ungroup ∘ groupby, table level**: for a non-empty table, explicit distinct key columns that
 leave at least one other column, and a `grp` name that is not a key, `d.groupby(by).ungroup()` has
@@ -232,7 +234,7 @@ theorem ungroup_groupby (t : Table) (by_ : List String) (grp : String) (keys : L
     rw [h] at this
     simp at this
     exact hkl (List.eq_nil_of_length_eq_zero this.symm)
-  rw [groupby_table t by_ grp keys hn hb hlt hk]
+  rw [groupby_table t by_ grp keys hn hb hlt hgb hk]
   show VTable.ungroup (groupbyTable t by_ grp (listbyG keys)) grp = _
   rw [ungroup_groupbyTable t by_ grp (listbyG keys) hb hnd htn hgb ho hgs]
   congr 3
@@ -269,10 +271,10 @@ theorem listby_nrows (t : Table) (by_ : List String) (keys : List Val)
 
 /-- table level: `d.groupby(by)` has one row (one sub-table) per distinct key -/
 theorem groupby_nrows (t : Table) (by_ : List String) (grp : String) (keys : List Val)
-    (hn : t.nrows ≠ 0) (hb : by_ ≠ []) (hlt : by_.length ≠ t.cols.length)
+    (hn : t.nrows ≠ 0) (hb : by_ ≠ []) (hlt : by_.length ≠ t.cols.length) (hgb : grp ∉ by_)
     (hk : t.keysOf (by_.map .col) = .ok keys) :
     ∃ l, t.groupby by_ grp = .ok l ∧ l.nrows = (listbyG keys).length := by
-  refine ⟨_, groupby_table t by_ grp keys hn hb hlt hk, ?_⟩
+  refine ⟨_, groupby_table t by_ grp keys hn hb hlt hgb hk, ?_⟩
   cases by_ with
   | nil => exact absurd rfl hb
   | cons b bs => simp [keyColsOf, VTable.nrows, List.zipIdx_cons]
@@ -934,5 +936,186 @@ def exR : Table := [("a", [.int 1, .flt 4]), ("y", [.str "p", .str "q"]), ("z", 
         || (uRows u ["a"] "y" "z").map (·.1) == [[.cell (.int 1)], [.cell (.int 1)]]
     | _ => false)
   | _ => false)
+
+/-! ## round h1: the group column's name, the representative rule, literal inverses -/
+
+/-- **`grp` named like a key is rejected**: `d.groupby(by, grp = g)` with `g ∈ by` is a `ValueError` whatever the table holds (repaired
+code, fix G1; before it the sub-tables REPLACED the key column `g` and `ungroup` returned the table without it —
+`dictable(a=[1,2,1], grp=['x','y','z'], v=[10,20,30]).groupby('grp').ungroup()` was `{'a':[1,2,1],'v':[10,20,30]}`).  Together with
+`ungroup_groupby` (hypothesis `grp ∉ by`) the two cases cover every name. -/
+theorem groupby_grp_collision (t : Table) (by_ : List String) (grp : String)
+    (hn : t.nrows ≠ 0) (hb : by_ ≠ []) (hgb : grp ∈ by_) :
+    t.groupby by_ grp = .error .value := by
+  have hb' : by_.isEmpty = false := by cases by_ <;> simp_all
+  simp only [Table.groupby, hn, hb', if_false, Bool.false_eq_true]
+  split
+  · rfl
+  · split
+    · rfl
+    · simp [hgb]
+
+/-- a `grp` that is the name of a NON-key column is accepted (that column lives inside the sub-tables): `groupby_table` / `ungroup_groupby`
+only need `grp ∉ by` -/
+example : Table.groupby [("a", [.int 1, .int 2, .int 1]), ("grp", [.str "x", .str "y", .str "z"])] ["grp"] "grp" = .error .value :=
+  groupby_grp_collision _ _ _ (by decide) (by decide) (by decide)
+
+/-- **the representative rule**: the key stored for a group is LITERALLY the key of the group's last row (`prev = key` on every row of the
+run, src/pyg_base/_dictable.py:923) — one of the keys of its rows, never a third value; for `1` beside `1.0` it is whichever comes last in the
+stable order. -/
+theorem listby_representative (keys : List Val) (g : Grp) (hg : g ∈ listbyG keys) (i : Nat)
+    (hi : g.2.getLast? = some i) : g.1 = keyAt keys i ∧ i ∈ g.2 :=
+  ⟨(keyAt_of_get (listbyG_rep keys g hg i hi)).symm, List.mem_of_getLast? hi⟩
+
+/-- helper: under "equal keys are identical", the key a regrouping writes beside row `i` is row `i`'s own key cell -/
+theorem rep_cell_eq (t : Table) (by_ : List String)
+    (hcanon : ∀ i j, i < t.nrows → j < t.nrows →
+      keysEqB (t.keyCells by_ i) (t.keyCells by_ j) = true → t.keyCells by_ i = t.keyCells by_ j)
+    (g : Grp) (hg : g ∈ listbyG (t.rowKeys by_)) (i : Nat) (hi : i ∈ g.2) (k : String) (j : Nat)
+    (hkj : by_[j]? = some k) : tupleGet j g.1 = .cell (t.jcellAt k i) := by
+  have hlen : (t.rowKeys by_).length = t.nrows := by simp [Table.rowKeys]
+  obtain ⟨hin, hie⟩ := (mem_group_iff hg).1 hi
+  rw [hlen] at hin
+  have hne : g.2 ≠ [] := List.ne_nil_of_mem hi
+  obtain ⟨l, hl⟩ : ∃ l, g.2.getLast? = some l := by
+    cases h : g.2.getLast? with
+    | none => simp at h; exact absurd h hne
+    | some l => exact ⟨l, rfl⟩
+  obtain ⟨hrep, hlm⟩ := listby_representative _ g hg l hl
+  obtain ⟨hln, _⟩ := (mem_group_iff hg).1 hlm
+  rw [hlen] at hln
+  have hil : t.keyCells by_ i = t.keyCells by_ l := by
+    apply hcanon i l hin hln
+    rw [← cmp_rowKeys_eq hin hln, beq_iff_eq, ← hrep]
+    exact hie
+  rw [hrep, keyAt_rowKeys hln, ← hil]
+  simp only [tupleGet, Table.keyCells, List.map_map, List.getD_eq_getElem?_getD, List.getElem?_map, hkj,
+    Option.map_some, Option.getD_some, Function.comp_def]
+
+theorem zipIdx_map_named {β} (by_ : List String) (F : String → Nat → β) (G : String → β)
+    (h : ∀ k j, by_[j]? = some k → F k j = G k) :
+    (by_.zipIdx.map fun c => (c.1, F c.1 c.2)) = by_.map fun k => (k, G k) := by
+  have : (by_.map fun k => (k, G k)) = by_.zipIdx.map fun c => (c.1, G c.1) := by
+    conv => lhs; rw [← List.zipIdx_map_fst 0 by_]
+    rw [List.map_map]; rfl
+  rw [this]
+  apply List.map_congr_left
+  intro c hc
+  have := List.mem_zipIdx_iff_getElem?.1 hc
+  rw [h c.1 c.2 this]
+
+/-- **unlist ∘ listby, literally** — when key-equal rows carry identical key cells (no `1` beside `1.0`: `keysEqB` is the independent key equality
+of C02's `KeyEq.lean`), `d.listby(by).unlist()` IS the table stably sorted by the keys: EVERY column, key or not, is that column of `d` read
+through the stable-sort permutation `sortIdx` (C07) — key columns first.  Cells are looked up by column NAME (`jcellAt`), not through the model's
+grouping. -/
+theorem unlist_listby_canonical (t : Table) (by_ : List String)
+    (hn : t.nrows ≠ 0) (hb : by_ ≠ []) (hnd : by_.Nodup) (hcols : ∀ k ∈ by_, k ∈ t.cols)
+    (htn : ((t.others by_).map (·.1)).Nodup) (ho : t.others by_ ≠ [])
+    (hcanon : ∀ i j, i < t.nrows → j < t.nrows →
+      keysEqB (t.keyCells by_ i) (t.keyCells by_ j) = true → t.keyCells by_ i = t.keyCells by_ j) :
+    (t.listby by_ >>= VTable.unlist) = .ok (
+      (by_.map fun k => (k, (sortIdx (t.rowKeys by_)).map fun i => Val.cell (t.jcellAt k i))) ++
+      (t.others by_).map fun c => (c.1, pick c.2 (sortIdx (t.rowKeys by_)))) := by
+  rw [unlist_listby t by_ (t.rowKeys by_) hn hb hnd htn ho (keysOf_named hcols)]
+  congr 2
+  rw [← zipIdx_map_named by_ (fun _ j => (listbyG (t.rowKeys by_)).flatMap fun g => g.2.map fun _ => tupleGet j g.1)]
+  intro k j hkj
+  rw [← listbyG_flat, List.map_flatMap]
+  apply flatMap_congr'
+  intro g hg
+  apply List.map_congr_left
+  intro i hi
+  exact rep_cell_eq t by_ hcanon g hg i hi k j hkj
+
+/-- **ungroup ∘ groupby restores the multiset of rows, literally** — same hypothesis, `grp ∉ by`: there is a PERMUTATION `σ` of the row numbers
+(`σ = sortIdx keys`) such that every column of the result, key or not, is that column of `d` read through `σ`.  So the rows of the result are the
+rows of `d`, each exactly once (`List.Perm`), cell for cell, types included. -/
+theorem ungroup_groupby_perm (t : Table) (by_ : List String) (grp : String)
+    (hn : t.nrows ≠ 0) (hb : by_ ≠ []) (hnd : by_.Nodup) (hgb : grp ∉ by_) (hcols : ∀ k ∈ by_, k ∈ t.cols)
+    (htn : ((t.others by_).map (·.1)).Nodup) (ho : t.others by_ ≠ [])
+    (hlt : by_.length ≠ t.cols.length)
+    (hcanon : ∀ i j, i < t.nrows → j < t.nrows →
+      keysEqB (t.keyCells by_ i) (t.keyCells by_ j) = true → t.keyCells by_ i = t.keyCells by_ j) :
+    ∃ σ : List Nat, σ.Perm (List.range t.nrows) ∧
+      (match t.groupby by_ grp with
+        | .ok g => g.ungroup grp
+        | .error e => some (.error e)) = some (.ok (
+        ((t.others by_).map fun c => (c.1, pick c.2 σ)) ++
+        (by_.map fun k => (k, σ.map fun i => Val.cell (t.jcellAt k i))))) := by
+  refine ⟨sortIdx (t.rowKeys by_), ?_, ?_⟩
+  · have := listbyG_perm (t.rowKeys by_)
+    rw [listbyG_flat] at this
+    simpa [Table.rowKeys] using this
+  rw [ungroup_groupby t by_ grp (t.rowKeys by_) hn hb hnd hgb htn ho hlt (keysOf_named hcols)]
+  congr 3
+  rw [← zipIdx_map_named by_ (fun _ j => (listbyG (t.rowKeys by_)).flatMap fun g => g.2.map fun _ => tupleGet j g.1)]
+  intro k j hkj
+  rw [← listbyG_flat, List.map_flatMap]
+  apply flatMap_congr'
+  intro g hg
+  apply List.map_congr_left
+  intro i hi
+  exact rep_cell_eq t by_ hcanon g hg i hi k j hkj
+
+/-- the hypotheses are satisfiable on a table with duplicate keys, and the deviation without `hcanon` is real: `1` beside `1.0` -/
+def exG : Table := [("a", [.int 2, .int 1, .int 2]), ("v", [.str "p", .str "q", .str "r"])]
+
+example : ∃ σ : List Nat, σ.Perm (List.range 3) ∧
+    (match exG.groupby ["a"] "grp" with
+      | .ok g => g.ungroup "grp"
+      | .error e => some (.error e)) = some (.ok (
+      ((exG.others ["a"]).map fun c => (c.1, pick c.2 σ)) ++
+      (["a"].map fun k => (k, σ.map fun i => Val.cell (exG.jcellAt k i))))) :=
+  ungroup_groupby_perm exG ["a"] "grp" (by decide) (by decide) (by decide) (by decide) (by decide) (by decide) (by decide)
+    (by decide) (by
+      intro i j hi hj
+      have hi' : i = 0 ∨ i = 1 ∨ i = 2 := by simp [exG, Table.nrows] at hi; omega
+      have hj' : j = 0 ∨ j = 1 ∨ j = 2 := by simp [exG, Table.nrows] at hj; omega
+      rcases hi' with rfl | rfl | rfl <;> rcases hj' with rfl | rfl | rfl <;> decide)
+
+#guard (match Table.listby [("a", [.int 1, .flt 4, .int 2, .int 1]), ("b", [.int 1, .int 2, .int 3, .int 4])] ["a"] >>= VTable.unlist with
+  | .ok u => u == [("a", [.cell (.int 1), .cell (.int 1), .cell (.int 1), .cell (.int 2)]), ("b", [.cell (.int 1), .cell (.int 2), .cell (.int 4), .cell (.int 3)])]
+  | _ => false)
+
+/-- **"aggregating duplicates with the supplied function"**: `pivot_cell` for ANY aggregator `f : List Cell → Val` (`Agg.fn f`), not only the four
+the wire can spell: the cell is `None` iff no row has that x key and y value, else `f` of the z values of exactly those rows in original order. -/
+theorem pivot_cell_fn (t : Table) (x : List String) (y z : String) (f : List Cell → Val) (zs : List Cell)
+    (labels : List String)
+    (hn : t.nrows ≠ 0) (hx : x ≠ [])
+    (hcols : ∀ k ∈ x ++ [y], (t.col? k).isSome = true) (hz : t.col? z = some zs) :
+    let xyg := listbyG (xyKeys t.nrows (xCells t x) (yCell t y))
+    let xg := listbyG (xyg.map fun g => xPart x.length g.1)
+    let ys := listbyG ((xyg.map fun g => tupleGet x.length g.1).map fun v => .tuple [v])
+    ys.mapM (fun g => yLabel (tupleGet 0 g.1)) = some labels → (x ++ labels).Nodup →
+    t.pivot x y z (.fn f) = some (.ok (keyColsOf x xg ++
+      (labels.zip ys).map fun p => (p.1, xg.map fun gx =>
+        let rows := (List.range t.nrows).filter fun i =>
+          cmp (.tuple (xCells t x i)) gx.1 == .eq && cmp (.tuple [yCell t y i]) p.2.1 == .eq
+        if rows = [] then .cell .none else f (rows.map fun i => zs.getD i .none)))) :=
+  pivot_cell t x y z (.fn f) zs labels hn hx hcols hz
+
+/-- **pivot of a table without rows** (repaired code, fix G3): the x columns, no row, no y column — and `unpivot` of it is the empty table over
+`x ++ [y, z]`: the round trip of an empty table is empty. -/
+theorem pivot_empty (t : Table) (x : List String) (y z : String) (agg : Agg)
+    (hn : t.nrows = 0) (hx : x ≠ []) (hxn : x.Nodup) (hcols : ∀ k ∈ x, (t.col? k).isSome = true) :
+    t.pivot x y z agg = some (.ok (x.map fun k => (k, []))) ∧
+    VTable.unpivot (x.map fun k => (k, [])) x y z = .ok ((x.map fun k => (k, [])) ++ [(y, []), (z, [])]) := by
+  have hx' : x.isEmpty = false := by cases x <;> simp_all
+  constructor
+  · have hall : (x.all fun k => (t.col? k).isSome) = true := List.all_eq_true.2 hcols
+    simp [Table.pivot, hn, hx', hxn, hall]
+  · have hnr : VTable.nrows (x.map fun k => (k, ([] : List Val))) = 0 := by
+      cases x with
+      | nil => exact absurd rfl hx
+      | cons a as => rfl
+    simp only [VTable.unpivot, hnr, List.range_zero, List.flatMap_nil, bind, Except.bind, pure, Except.pure]
+    rw [mapM_ok_of_forall (g := fun k => (k, ([] : List Val)))]
+    intro k hk
+    rw [find?_named (fun _ => ([] : List Val)) k x, if_pos hk]
+
+/-- **`str` is injective on ints** (`Int.repr_inj`), so INT y values always give distinct column keys: `labelsInjective_int` without its
+printing hypothesis -/
+theorem labelsInjective_ints (t : Table) (y : String) (hint : ∀ i, i < t.nrows → ∃ n, t.jcellAt y i = .int n) :
+    LabelsInjective t y :=
+  labelsInjective_int t y hint fun _ _ _ _ h => Int.repr_inj.1 h
 
 end Pyg.Props.C11
